@@ -124,9 +124,10 @@ type c18Doc struct {
 	exKey    string // an extra descriptor member: "" none
 	exKind   int    // 1 list of strings, 2 string, 3 number
 	exKnown  bool   // the extra member is a field of the OCI descriptor type, spelled exactly
+	trailing bool   // the document is followed by further bytes (e.g. a second document)
 }
 
-const c18Deviations = 46
+const c18Deviations = 47
 
 // c18Deviate applies deviation k (0 = none).
 func (d *c18Doc) deviate(k int) {
@@ -221,6 +222,8 @@ func (d *c18Doc) deviate(k int) {
 		d.exKey, d.exKind = "targetArtifact", 3
 	case 45:
 		d.postKey, d.postKind = "mediaType", 2
+	case 46:
+		d.trailing = true
 	}
 }
 
@@ -336,6 +339,9 @@ func (d *c18Doc) render(req ocispec.Descriptor) (doc vr.J, ok bool, dontCare boo
 		} else {
 			top = append(top, d.postKey, vr.JNum(1))
 		}
+	}
+	if d.trailing {
+		return vr.JTrailing(vr.JObj(top...)), false, false
 	}
 	return vr.JObj(top...), ok, dontCare
 }
